@@ -1,7 +1,7 @@
 ID = "C17"
 LEVEL = "proof"
-COQ_TARGETS = ["Props/Properties_C17.vo", "Extract/ExtractValue.vo"]
-PROPS_FILES = ["Props/Properties_C17.v"]
+COQ_TARGETS = ["Props/Properties_C17.vo", "Props/Properties_C17_total.vo", "Extract/ExtractValue.vo"]
+PROPS_FILES = ["Props/Properties_C17.v", "Props/Properties_C17_total.v"]
 RUNS = [dict(name="equal", harness="c17", driver="value", model_ml="value_model", driver_args=["c17"])]
 EXPLANATION = ("capnp.Equal is modelled step by step (coq/Value/EqualM.v: bytewise fast path, traversal-limit consumption, error "
                "and panic paths, two messages or one) over the read-side model. Theorem C17_equal_m_correct: for all messages, "
@@ -23,7 +23,10 @@ TRUSTED = ["model coq/Value/EqualM.v hand-written from pointer.go (Equal); clien
            "model (quadratic) and compare Equal with the answer known by construction"]
 MODELLED = ["capnp.Client identity (abstract ids)", "Go slices with cap == len (the harness copies every segment)"]
 ASSUMPTIONS = ["message bytes are 0..255 and segments are shorter than 2^32 - 8 bytes (msg_ok); 64-bit platform",
-               "the statement is conditional on Equal returning (b, nil): with exhausted traversal or depth limits it returns an error"]
+               "partial correctness (C17_equal_m_correct) is conditional on Equal returning (b, nil); totality "
+               "(C17_equal_m_total / C17_equal_m_answers) says it does return (b, nil) when the pointers are well formed "
+               "(wf_ptr: what the reader hands out), their depth budgets cover the nesting, the traversal budgets cover the "
+               "cost measure of trav, and fuel >= depth limit + 2; with smaller limits it may return an error"]
 LEVEL_TEXT = ("Proof: for all value trees the documented equality is reflexive, symmetric, contains the schema-level equality "
               "and is not transitive (witnesses). For all messages, all pairs of pointers (one message or two), all fuel and "
               "budgets: if the repaired model of Equal answers (b, nil) then b = value_eq of the denoted values "
@@ -31,12 +34,27 @@ LEVEL_TEXT = ("Proof: for all value trees the documented equality is reflexive, 
               "bytewise fast path and the primitive/pointer-list upgrade, bit lists, capabilities, null); hence Equal is "
               "reflexive, symmetric and independent of the layout (C17_equal_refl/sym/layout_independent). The model is tied "
               "to pointer.go by a differential run (capnp.Equal vs extracted equal_m vs value_eq of the walked trees) on value "
-              "pairs in random layouts. Defects F01 and O3 found by that run and fixed; pre-fix models kept with witnesses.")
-LEVEL_NOTE = ("Partial correctness: every theorem is conditional on Equal answering (b, nil); that it answers when the limits "
-              "cover both values is not proved here (fuel non-exhaustion: EqualSafe.equal_m_nofuel, exported under C02), and no "
-              "lemma says den is inhabited for every pointer of a valid message. value_eq is not transitive (witness). Three rules "
-              "of value_eq follow the code rather than the doc comment (see TRUSTED). Trusted: Coq kernel, extraction, harness, "
-              "hand-written model. The specification side of the run is evaluated on vdec (sound for den).")
+              "pairs in random layouts. Defects F01 and O3 found by that run and fixed; pre-fix models kept with witnesses. "
+              "Totality (Properties_C17_total.v): Equal answers (b, nil) whenever depth limits and traversal budgets cover "
+              "the traversability measures of both pointers (C17_equal_m_total), every denoted pointer has such measures "
+              "(C17_den_trav), hence Equal returns exactly value_eq of the denoted values under covering limits "
+              "(C17_equal_m_answers).")
+LEVEL_NOTE = ("Total correctness is now proved on the model (coq/Value/EqualTotal.v, EqualTotalDen.v; Properties_C17_total.v): "
+              "C17_equal_m_total -- for all messages, one or two, all well-formed pointers p, q that are traversable "
+              "(trav p da ca, trav q db cb: every reachable Struct.Ptr succeeds, nesting depth da/db, sum of the read sizes "
+              "of all pointers below = ca/cb), depth budgets >= da/db, traversal budgets >= ca / cb (ca + cb when both "
+              "pointers share a message), fuel >= depth limit + 2: equal_m returns (EOk b, w') -- never an error, panic or "
+              "fuel exhaustion -- and consumes at most ca / cb. Charge function: exactly LimitProofs.readSize of every "
+              "pointer Struct.Ptr hands out on the common slots visited (EqualAcct.equal_mA); trav's cost sums over ALL "
+              "slots, so it is an upper bound (sufficient, not necessary: Equal stops at the first difference and skips "
+              "extra pointer slots). C17_den_trav: every pointer with a denotation is traversable with depth = nesting depth "
+              "of the value; C17_equal_m_answers: pointers denoting va, vb are answered with exactly value_eq va vb under all "
+              "covering limits. PARTIAL: C17_den_defined_of_valid_partial derives the denotation (and its measures) from the "
+              "success of the executable decoder vdec, not from the Spec validity predicate (strict_valid_message); the link "
+              "valid message => vdec succeeds is NOT proved. The depth slack is the value's vdepth (a list costs 2, a struct 1), "
+              "not the minimal depth Equal needs. value_eq is not transitive (witness). Three rules of value_eq follow the code "
+              "rather than the doc comment (see TRUSTED). Trusted: Coq kernel, extraction, harness, hand-written model. The "
+              "specification side of the run is evaluated on vdec (sound for den).")
 TECHNIQUE = "Coq proof over an executable model + extracted-model/implementation differential run"
 DESIGN_REF = "DESIGN.md section 6, C17"
 
